@@ -886,16 +886,18 @@ def r6(ctx):
     # (a) known token
     known = test_edges(g, lambda t, p: t == "identity_token is None" and p is False)
     ctx.require(known, "no `identity_token is not None` branch in _identity_lookup")
-    starts = [b for _, _, b in known]
-    w1 = g.witness(starts, [loop.id], edge_ok=no_exc)
+    # path-sensitive from the entry under the fact "a token was given" (the fact dies when the parameter is rebound): no such
+    # path reaches the chooser loop or another lookup, every such path to a return passes the lookup under that token
+    ps = PathSense(g)
+    given = [("identity_token is None", False)]
+    w1 = ps.witness([g.entry], [loop.id], edge_ok=no_exc, init_facts=given)
     lk = lookups("identity_token")
-    w2 = must_pass(g, starts, [g.exit], lk, edge_ok=no_exc) if lk else ["no lookup under the given token"]
-    others = [n for n in g.reachable(starts, edge_ok=no_exc) if n in all_lookups and n not in lk]
+    w2 = ps.witness([g.entry], [g.exit], avoid=lk, edge_ok=no_exc, init_facts=given) if lk else ["no lookup under the given token"]
+    others = [n for n in all_lookups if n not in lk and ps.witness([g.entry], [n], edge_ok=no_exc, init_facts=given)]
     ctx.check(w1 is None and w2 is None and not others, f.key + ":known-token-only",
               "with a known identity token the identity map is not searched under exactly that token "
               "(session.get(X, pk, identity_token='a') can return the object with the same primary key from shard 'b')",
-              "identity_token given -> super()._identity_lookup(identity_token=identity_token)", f.loc,
-              g.describe_path(w1) if w1 else (w2 if isinstance(w2, list) else None))
+              "identity_token given -> super()._identity_lookup(identity_token=identity_token)", f.loc, w1 or w2)
     # (b) each candidate token
     body = [b for b, lab in g.succ[loop.id] if lab == "true"]
     in_loop = g.reachable(body, avoid=[loop.id], edge_ok=no_exc)
@@ -1025,7 +1027,7 @@ def r7(ctx):
             if not sites:
                 continue
             g = ctx.cfg(F)
-            kf = KeyFlow(g, F.node)
+            kf = KeyFlow(g, F.node, ctx, F)
             seen_keys: Dict[str, int] = {}
             for c in sorted(sites, key=lambda x: (x.lineno, x.col_offset)):
                 at = kf.node_of(c)
